@@ -258,7 +258,7 @@ class DiskStorage(QueueStorage):
     def set_recipients_delivered(self, id, rcpt_indexes):
         meta = self.ops.read_meta(id)
         current = meta.get('delivered_indexes', [])
-        new = current + list(rcpt_indexes)
+        new = current + self._delivered_round(rcpt_indexes)
         meta['delivered_indexes'] = new
         self.ops.write_meta(id, meta)
         log.update_meta(id, delivered_indexes=rcpt_indexes)
@@ -275,7 +275,7 @@ class DiskStorage(QueueStorage):
         meta = self.ops.read_meta(id)
         env = self.ops.read_env(id)
         delivered_rcpts = meta.get('delivered_indexes', [])
-        self._remove_delivered_rcpts(env, delivered_rcpts)
+        self._replay_delivered_rcpts(env, delivered_rcpts)
         return env, meta['attempts']
 
     def remove(self, id):
